@@ -550,7 +550,7 @@ func ruleFitInputs(c *Ctx) {
 		for b := range l.blocks {
 			for _, ins := range b.Instrs {
 				if u, ok := ins.(*ssa.UnOp); ok && u.Op == token.MUL {
-					if ia, ok := u.X.(*ssa.IndexAddr); ok && derivesFrom(ia.X, resultOfCall(getPeers), 3) {
+					if ia, ok := u.X.(*ssa.IndexAddr); ok && resultOfCall(getPeers)(ia.X) {
 						ranges = true
 					}
 				}
